@@ -68,11 +68,38 @@ def main():
                 cb.aggregate()
                 doc = json.loads(ReportWriter(Report(cb)).to_json())
                 d = digest(norm_report(doc))
+                # every file's entry, as seen in the company of its neighbours under this traversal order
+                for rel, v in sorted(doc["codebase"]["files"].items()):
+                    out.write(json.dumps({"kind": "tree", "proc": proc, "seed": seed, "file": f"entry:{tname}:{rel}", "digest": digest(v)}) + "\n")
             except Exception as e:  # noqa: BLE001
                 d = "exc:" + type(e).__name__
             finally:
                 os.walk = real_walk
             out.write(json.dumps({"kind": "tree", "proc": proc, "seed": seed, "file": "tree:" + tname, "digest": d}) + "\n")
+        # isolation: every file of a small tree scanned alone (same relative path, no neighbours)
+        import shutil
+        import tempfile
+
+        for tname, root in spec.get("alone", []):
+            for dirpath, _dirs, fnames in real_walk(root):
+                for fn in sorted(fnames):
+                    src = os.path.join(dirpath, fn)
+                    rel = os.path.relpath(src, root)
+                    tmp = tempfile.mkdtemp(prefix="alone-", dir=os.path.dirname(root))
+                    try:
+                        dst = os.path.join(tmp, rel)
+                        os.makedirs(os.path.dirname(dst), exist_ok=True)
+                        shutil.copyfile(src, dst)
+                        Configuration.exclude = []
+                        cb = scan_path(Path(tmp))
+                        cb.aggregate()
+                        doc = json.loads(ReportWriter(Report(cb)).to_json())
+                        for r2, v in doc["codebase"]["files"].items():
+                            out.write(json.dumps({"kind": "tree", "proc": proc, "seed": seed, "file": f"entry:{tname}:{r2}", "digest": digest(v)}) + "\n")
+                    except Exception as e:  # noqa: BLE001
+                        out.write(json.dumps({"kind": "tree", "proc": proc, "seed": seed, "file": f"entry:{tname}:{rel}", "digest": "exc:" + type(e).__name__}) + "\n")
+                    finally:
+                        shutil.rmtree(tmp, ignore_errors=True)
     out.close()
 
 
